@@ -2,6 +2,39 @@
 
 package mqtt
 
-import "time"
+import (
+	"sync"
+	"time"
+)
+
+var verifTurnMu sync.Mutex
+var verifTurnPos int
 
 func verifNativeSleep() { time.Sleep(20 * time.Millisecond) }
+
+func verifNativeTurn(tag string) {
+	if len(verifVec.Yields) == 0 {
+		time.Sleep(20 * time.Millisecond)
+		return
+	}
+	deadline := time.Now().Add(500 * time.Millisecond)
+	for {
+		verifTurnMu.Lock()
+		if verifTurnPos >= len(verifVec.Yields) {
+			verifTurnMu.Unlock()
+			return
+		}
+		if verifVec.Yields[verifTurnPos] == tag {
+			verifTurnPos++
+			verifTurnMu.Unlock()
+			// let the released goroutine run up to its next blocking point before the next turn
+			time.Sleep(5 * time.Millisecond)
+			return
+		}
+		verifTurnMu.Unlock()
+		if time.Now().After(deadline) {
+			return
+		}
+		time.Sleep(time.Millisecond)
+	}
+}
